@@ -614,8 +614,9 @@ fn parse_expr_unaryop(
                         base_location,
                     ));
                 }
+                // Only numbers can be counted up and down - not structs, arrays, enums or objects
                 match context.module.type_registry.extract_scalar(tyl) {
-                    Some(ir::ScalarType::Bool) => Err(TyperError::UnaryOperationWrongTypes(
+                    Some(ir::ScalarType::Bool) | None => Err(TyperError::UnaryOperationWrongTypes(
                         op.clone(),
                         ErrorType::Unknown,
                         base_location,
